@@ -20,6 +20,10 @@
    call style (positional / keyword), the same argument objects used twice, and - for a part of them - a call on other
    voltages between obtaining a result and looking at it.  Both realisations of a record are judged by every clause.
 Numeric clause decided by projection: gain == 0 / == 1 / within [0,1] to 1e-12.
+Robustness: whatever a call returns goes through `decode` (total): no pair, flags / gain that are not one-dimensional or not
+booleans / numbers -> no entries -> `OneValuePerSample`; gains that are not real numbers (NaN, text, None, complex off the real
+axis) -> class "X" -> `Range`; only exceptions raised inside the library calls (`LIB_ERRORS`, SystemExit included) become
+`Raised:<type>`; `Reader.range_volts` is looked at by `observe_range` (`sat:RangeVolts` whatever happens afterwards).
 """
 import copy
 import json
@@ -290,7 +294,10 @@ def call(data, maxv, mode, a, b, M):
         # as the default 1e-8 V/s at 30 kHz or as the same step at 25 kHz
         opt["v_per_sec"] = 1e-8 if (not mode["exact"] and mode["rate"] != "25k") else 8 * g / mode["fs"]
     if not (mode["omit_p"] and (a, b) == (1, 5)):
-        opt["proportion"] = a / b
+        # the proportion as a caller may hold it: a Python float, a NumPy scalar, a 0-d array (seed round i: channel fractions
+        # computed in single precision compare differently with a NumPy double at exactly proportion * nc channels)
+        k = (a + 2 * b + M) % 4
+        opt["proportion"] = a / b if k < 2 else np.float64(a / b) if k == 2 else np.array(a / b)
     if not (mode["omit_M"] and M == 7):
         opt["mute_window_samples"] = np.int64(M) if mode["Mnp"] else M
     style = mode["style"]
@@ -310,23 +317,97 @@ def call(data, maxv, mode, a, b, M):
     # with one range vector): the second answer is the one judged, so a call that alters its arguments or keeps state
     # between calls shows up as a wrong flag / gain
     f(data)
-    sat, mute = f(data)
+    ret = f(data)
     if mode["disturb"]:
         # the caller goes on with other voltages before it looks at the answer it holds: the objects returned by the
         # judged call are looked at after this call
         other = np.ascontiguousarray(data[:, ::-1]) if M % 2 else np.zeros_like(data)
         f(other)
-    return np.asarray(sat), np.asarray(mute)
+    return ret          # whatever the code returned: decode() looks at it
 
 
-def observe(sat, mute):
-    sat, mute = np.asarray(sat), np.asarray(mute, dtype=float)
-    if sat.dtype != bool:
-        sat = sat != 0
-    m = mute.ravel()
-    fin = np.isfinite(m)
-    q = np.where(fin, np.rint(np.clip(np.where(fin, m, 0.0), -1, 2) * 1e6), -999).astype(np.int64)
-    return [bool(v) for v in sat.ravel()], classify(m), q.tolist()
+# what may escape from a call of the code under test into a verdict (`Raised:<type>`); a SystemExit raised in there would
+# otherwise end the check with the exit status the code chose
+LIB_ERRORS = (Exception, SystemExit)
+
+
+def decode(ret):
+    """whatever a call of saturation() returned -> (flags, gain): a 1-D bool array and a 1-D float array, or None for a part that
+    is not 'one value per sample' (no pair at all, another number of dimensions, elements that are neither booleans nor numbers).
+    Gains that are not real numbers (text, None, a complex number off the real axis) become NaN: not within [0, 1].
+    Total: the only failures left are the harness's own"""
+    try:
+        sat, mute = ret
+    except LIB_ERRORS:
+        return None, None
+    try:
+        fl = np.asarray(sat)
+        if fl.ndim == 1 and fl.dtype.kind == "O" and all(isinstance(v, (bool, int, float, np.bool_, np.integer, np.floating)) for v in fl):
+            fl = fl.astype(float)
+        if fl.ndim != 1 or fl.dtype.kind not in "biuf":
+            fl = None
+        elif fl.dtype != bool:
+            fl = fl != 0
+    except LIB_ERRORS:
+        fl = None
+    try:
+        g = np.asarray(mute)
+        if g.ndim != 1:
+            g = None
+        elif g.dtype.kind in "biuf":
+            g = g.astype(float)
+        elif g.dtype.kind == "c":
+            g = np.where(g.imag == 0, g.real, np.nan).astype(float)
+        elif g.dtype.kind == "O":
+            g = np.array([_real(v) for v in g], dtype=float)
+        else:
+            g = np.full(g.shape, np.nan)
+    except LIB_ERRORS:
+        g = None
+    return fl, g
+
+
+def _real(v):
+    if isinstance(v, (bool, int, float, np.bool_, np.integer, np.floating)):
+        return float(v)
+    if isinstance(v, (complex, np.complexfloating)) and v.imag == 0:
+        return float(v.real)
+    return np.nan
+
+
+def observe(fl, g):
+    """decoded flags / gain -> the fields of a trace record (a missing part: no entries, `OneValuePerSample` is false)"""
+    if g is None:
+        cls, q = [], []
+    else:
+        fin = np.isfinite(g)
+        q = np.where(fin, np.rint(np.clip(np.where(fin, g, 0.0), -1, 2) * 1e6), -999).astype(np.int64).tolist()
+        cls = classify(g)
+    return ([] if fl is None else [bool(v) for v in fl]), cls, q
+
+
+def shape_of(ret):
+    """one line about what a call returned instead of (flags [ns], gain [ns])"""
+    try:
+        return "(" + ", ".join(f"{type(x).__name__}{list(np.shape(x))}" for x in ret) + ")"
+    except LIB_ERRORS:
+        return type(ret).__name__
+
+
+def observe_range(rv_all, want):
+    """Reader.range_volts (all channels, the sync channel last) against the full scale of the metadata -> (ok, one line)"""
+    try:
+        rv = np.asarray(rv_all)
+        if rv.ndim != 1 or rv.dtype.kind not in "iuf":
+            return False, f"{type(rv_all).__name__} {list(rv.shape)} of {rv.dtype}"
+        rv = rv.astype(np.float64)[:-1]
+        return bool(rv.shape == want.shape and np.allclose(rv, want, rtol=1e-6, atol=0)), str([float(v) for v in rv[:3]])
+    except LIB_ERRORS:
+        return False, type(rv_all).__name__
+
+
+def same_gain(g, g2):
+    return bool(g is not None and g2 is not None and g.shape == g2.shape and np.all(np.abs(g - g2) <= TOL))
 
 
 def record(co, cs, nc_abs, a, b, M, rnd, nprng, reps, want_at=False, extra=None, modes=None):
@@ -346,17 +427,16 @@ def record(co, cs, nc_abs, a, b, M, rnd, nprng, reps, want_at=False, extra=None,
         else:
             rec.update(nc2=nc_abs * rep, co2=co_r, cs2=cs_r, ca2=ca_r)
         try:            # only the code under test may raise into the verdict
-            sat, mute = call(data, maxv, mode, a, b, M)
-            sat, mute = np.asarray(sat), np.asarray(mute, dtype=float)
-        except Exception as e:
+            ret = call(data, maxv, mode, a, b, M)
+        except LIB_ERRORS as e:
             rec["exc"] = type(e).__name__
             return rec
-        res.append((sat, mute))
+        res.append(decode(ret))
     sat, mute = res[0]
     rec["flags"], rec["cls"], rec["q"] = observe(sat, mute)
     sat2, mute2 = res[-1]
     rec["flags2"], rec["cls2"], rec["q2"] = observe(sat2, mute2)
-    rec["same"] = bool(mute.shape == mute2.shape and np.all(np.abs(mute - mute2) <= TOL))
+    rec["same"] = same_gain(mute, mute2)
     return rec
 
 
@@ -523,15 +603,15 @@ def very_long(ctx, rnd, nprng):
         sc = {"kind": "verylong", "i": i, "seed": ctx.seed}
         ctx.count(1, key=("verylong", ns, nc_abs, a, b, M))
         try:
-            sat, mute = call(data, maxv, mode, a, b, M)
-            sat, mute = np.asarray(sat).ravel() != 0, np.asarray(mute, dtype=float).ravel()
-        except Exception as e:
+            ret = call(data, maxv, mode, a, b, M)
+        except LIB_ERRORS as e:
             ctx.violation("sat:Raised:" + type(e).__name__, f"{what} raised {type(e).__name__}: {e}"[:300], sc)
             continue
+        sat, mute = decode(ret)
         nc = nc_abs * rep
         exp = np.array([c * b > a * nc for c in co_r]) | np.r_[np.array([c * b > a * nc for c in cs_r[:ns - 1]]), False]
-        if sat.shape != (ns,) or mute.shape != (ns,):
-            ctx.violation("sat:OneValuePerSample", f"{what}: shapes {sat.shape} / {mute.shape}", sc)
+        if sat is None or mute is None or sat.shape != (ns,) or mute.shape != (ns,):
+            ctx.violation("sat:OneValuePerSample", f"{what}: not one flag and one gain per sample: {shape_of(ret)}", sc)
             continue
         bad = np.flatnonzero(sat != exp)
         if bad.size:
@@ -545,10 +625,12 @@ def very_long(ctx, rnd, nprng):
             left = np.where(idx > 0, np.arange(ns) - fl[np.clip(idx - 1, 0, fl.size - 1)], ns)
             right = np.where(idx < fl.size, fl[np.clip(idx, 0, fl.size - 1)] - np.arange(ns), ns)
             dist = np.minimum(left, right)
-        if np.any(np.abs(mute[exp]) > TOL):
-            ctx.violation("sat:ZeroOnFlag", f"{what}: gain {mute[exp][np.abs(mute[exp]) > TOL][:3].tolist()} on flagged samples", sc)
-        elif np.any(np.abs(mute[dist > M] - 1) > TOL) or np.any((mute < -TOL) | (mute > 1 + TOL)):
-            ctx.violation("sat:OneFar", f"{what}: gain is not 1 farther than the taper from every flagged sample / leaves [0, 1]", sc)
+        with np.errstate(invalid="ignore"):      # a gain that is not a number satisfies none of the clauses
+            nz = ~(np.abs(mute[exp]) <= TOL)
+            if np.any(nz):
+                ctx.violation("sat:ZeroOnFlag", f"{what}: gain {mute[exp][nz][:3].tolist()} on flagged samples", sc)
+            elif not np.all(np.abs(mute[dist > M] - 1) <= TOL) or not np.all((mute >= -TOL) & (mute <= 1 + TOL)):
+                ctx.violation("sat:OneFar", f"{what}: gain is not 1 farther than the taper from every flagged sample / leaves [0, 1]", sc)
 
 
 def reader_family(ctx, folder, rnd, nprng):
@@ -556,8 +638,6 @@ def reader_family(ctx, folder, rnd, nprng):
     The first call is made the way decompress_destripe_cbin makes it (keywords, defaults for everything else but the
     slew limit, float32 block transposed, the range looked up after the block was read); the second one on a float64
     copy with the range vector that was looked up before anything was read, after the reader is closed"""
-    import spikeglx
-    from ibldsp import voltage
     out = []
     cfgs = [("3B2", 12, None, 512, "ap"), ("3A", 10, None, 512, "lf"), ("NP2.4", 16, None, 8192, "ap"), ("3B2", 9, None, 512, "lf"),
             ("3B1", 11, None, 512, "ap"), ("3B2", 384, None, 512, "ap"), ("NP2.1", 384, 0.62, 2048, "ap")]
@@ -593,30 +673,34 @@ def reader_family(ctx, folder, rnd, nprng):
             rec = {"nc": n, "ns": ns, "a": a, "b": b, "M": 7, "co": co, "cs": cs + [0], "ca": [0] * ns, "flags": [], "cls": [],
                    "q": [], "nc2": n, "co2": co, "cs2": cs + [0], "ca2": [0] * ns, "flags2": [], "cls2": [], "q2": [], "same": True,
                    "exc": "", "abs": {"family": "reader", "kind": kind, "stream": stream, "file": f.name}}
-            try:
+            want = np.array([info["range_max"] / ((g[0] if stream == "ap" else g[1]) if gains else 80) for g in (gains or [None] * n)])
+            rec["range_exp"] = str([float(v) for v in want[:3]])
+            ret = ret2 = None
+            try:            # library calls only: what they return is decoded below
+                import spikeglx
+                from ibldsp import voltage
                 sr = spikeglx.Reader(f, sort=False)
                 try:
-                    rv_early = sr.range_volts[:-1]
-                    rv = np.asarray(rv_early, dtype=np.float64)
-                    want = np.array([info["range_max"] / ((g[0] if stream == "ap" else g[1]) if gains else 80)
-                                     for g in (gains or [None] * n)])
-                    rec["range_ok"] = bool(rv.shape == want.shape and np.allclose(rv, want, rtol=1e-6, atol=0))
-                    rec["range_obs"] = str([float(v) for v in rv[:3]])
-                    rec["range_exp"] = str([float(v) for v in want[:3]])
+                    rv_all = sr.range_volts
+                    rec["range_ok"], rec["range_obs"] = observe_range(rv_all, want)
+                    rv_early = rv_all[:-1]
                     data = sr[:, :-1].T
                     # slew limit between the small steps (<= 5 counts) and a sign flip (>= 2 * 0.97 maxint counts)
                     s2v = np.asarray(sr.sample2volts[:-1], dtype=np.float64)
                     L = 20 * s2v.max()
                     opt = {} if (a, b) == (1, 5) and rep_i % 2 else {"proportion": a / b}
-                    sat, mute = voltage.saturation(data=data, max_voltage=sr.range_volts[:-1], fs=sr.fs, v_per_sec=L / sr.fs, **opt)
+                    ret = voltage.saturation(data=data, max_voltage=sr.range_volts[:-1], fs=sr.fs, v_per_sec=L / sr.fs, **opt)
                 finally:
                     sr.close()
-                sat2, mute2 = voltage.saturation(np.asarray(data, dtype=np.float64), rv_early, L / sr.fs, sr.fs, a / b)
+                ret2 = voltage.saturation(np.asarray(data, dtype=np.float64), rv_early, L / sr.fs, sr.fs, a / b)
+            except LIB_ERRORS as e:
+                rec["exc"] = type(e).__name__
+            if rec["exc"] == "":
+                sat, mute = decode(ret)
+                sat2, mute2 = decode(ret2)
                 rec["flags"], rec["cls"], rec["q"] = observe(sat, mute)
                 rec["flags2"], rec["cls2"], rec["q2"] = observe(sat2, mute2)
-                rec["same"] = bool(np.all(np.abs(mute - mute2) <= TOL))
-            except Exception as e:
-                rec["exc"] = type(e).__name__
+                rec["same"] = same_gain(mute, mute2)
             out.append(rec)
             f.unlink()
     return out
@@ -678,7 +762,7 @@ def run(ctx):
     for r in extra:
         ctx._distinct.add(key_of(r))
     for r in rdr:
-        if r["exc"] == "" and not r.get("range_ok", True):
+        if not r.get("range_ok", True):
             ctx.violation("sat:RangeVolts", f"Reader.range_volts of {r['abs']['file']} is {r['range_obs']}.., full scale is "
                           f"{r['range_exp']}..", {"kind": "reader", "rec": strip(r)})
     allr = recs + extra + rdr
@@ -845,7 +929,7 @@ def replay(ctx, sc):
     if sc.get("kind") == "reader":
         recs = reader_family(ctx, ctx.scratch / "rec", random.Random(ctx.seed), np.random.default_rng(ctx.seed))
         for x in recs:
-            if x["exc"] == "" and not x.get("range_ok", True):
+            if not x.get("range_ok", True):
                 ctx.violation("sat:RangeVolts", f"replay: range_volts {x['range_obs']} vs {x['range_exp']}", sc)
     else:
         a = r["abs"]
